@@ -18,8 +18,8 @@ CLAIMS = {
     'C02': dict(cat='exploration', tech='bounded-exhaustive enumeration of patterns x every forced pivot order x option grid against a long-double reference elimination',
                 text='All 0/1 patterns n<=4 x all n! forced pivot orders x thresholds x panel/relax/supernode/blocking grid x kernels (built-in, OpenBLAS) x 4 precisions; '
                      'residual |PrAPc-LU| <= gamma_n|L||U|, multiplier bound and the pivot policy (replayed on a reference elimination with tie bands) on every run with info=0. Family tune: the complete product maxsuper 1..n x relax 1..4 x panel {1,2,3,4,6} x rowblk {1,2,200} x colblk {1,2,100} x threads x static/dynamic storage on 20 catalogue matrices n=5..12 (dense and trailing-dense blocks); every (maxsuper,rowblk) class in processes of its own because the 2-D kernels cache these values. Engine S: the schedule catalogue (bound 1 quick, 2 thorough) with the same oracles.', ref='5 C02, 10'),
-    'C03': dict(cat='model_checking', engine='mcsched', tech='stateless preemption-bounded schedule exploration (CHESS-style DFS) of the real factorization under a controlled scheduler, with event monitors; explicit-state search of the scheduler protocol (Engine P)',
-                text='Every interleaving with at most k preemptions (k per job, 1-3) of the hooked protocol points of the real p?gstrf on a catalogue of n<=8 matrices that force pipelining, parallel leaves, supernodes spanning panels, relaxed supernodes, off-diagonal pivots and double pruning, with 2-4 threads; monitors check on every event that no update uses an unreleased/unpivoted column, no update is applied twice, nobody alters a supernode another thread is reading, and the scheduler hand-out invariant (single busy chain, bcol) on the real structures; the returned factors must satisfy the C02 bound. In addition Engine P (engines/mcproto) searches breadth-first ALL reachable states of the scheduler protocol - the real pxgstrf_scheduler / ParallelInit / pxgstrf_relax_snode / pxgstrf_mark_busy_descends code called on shadow structures, worker steps from proto_model.h - for every postordered elimination forest with n<=6 (P=2) / n<=5 (P=3) (thorough: 8 / 7), panel sizes 1-6, relax 1-3, checking invariants I1-I7 (dependences of a handed-out panel are done or form the single busy chain, no double hand-out, no lost wake-up, progress rank decreases). The model is bound to the code in both directions: its transitions call the real scheduler functions, and every execution Engine S explores of the real workers is replayed event by event on the model (traces_validated_against_impl, divergence = machinery error).', ref='5 C03, 0.4, 10.2',
+    'C03': dict(cat='model_checking', engine='mcsched', tech='stateless preemption-bounded schedule exploration (CHESS-style DFS) of the real factorization under a controlled scheduler, with event monitors and a vector-clock happens-before race monitor (clang TSan instrumentation, own runtime) evaluated in every explored execution; explicit-state search of the scheduler protocol (Engine P)',
+                text='Every interleaving with at most k preemptions (k per job, 1-3) of the hooked protocol points of the real p?gstrf on a catalogue of n<=8 matrices that force pipelining, parallel leaves, supernodes spanning panels, relaxed supernodes, off-diagonal pivots and double pruning, with 2-4 threads; monitors check on every event that no update uses an unreleased/unpivoted column, no update is applied twice, nobody alters a supernode another thread is reading, and the scheduler hand-out invariant (single busy chain, bcol) on the real structures; the returned factors must satisfy the C02 bound. The same catalogue is explored a second time in a build whose every load/store is instrumented (clang -fsanitize=thread instrumentation only) and checked by our own vector-clock runtime under the same scheduler: an unordered conflicting access to the stored values or row subscripts of L/U (happens-before from column flags, panel states, prune publication, locks, create/join) is a violation even when no scheduling point lies inside the window. In addition Engine P (engines/mcproto) searches breadth-first ALL reachable states of the scheduler protocol - the real pxgstrf_scheduler / ParallelInit / pxgstrf_relax_snode / pxgstrf_mark_busy_descends code called on shadow structures, worker steps from proto_model.h - for every postordered elimination forest with n<=6 (P=2) / n<=5 (P=3) (thorough: 8 / 7), panel sizes 1-6, relax 1-3, checking invariants I1-I7 (dependences of a handed-out panel are done or form the single busy chain, no double hand-out, no lost wake-up, progress rank decreases). The model is bound to the code in both directions: its transitions call the real scheduler functions, and every execution Engine S explores of the real workers is replayed event by event on the model (traces_validated_against_impl, divergence = machinery error).', ref='5 C03, 0.4, 10.2',
                 note='Trusted base: the baton scheduler and monitors in engines/mcsched, the hook lines in /repo (add-only, guard SLU_MT_VERIF), ASan. Sequential consistency assumed. Bounds: catalogue shapes n<=8, preemption bound per job as reported in the evidence. Scheduling points: hooked protocol statements, lock, unlock, create, join, thread exit; races between two of them are visible only through their consequences. Thorough tier: the chain forests with n=8 (P=2) and n>=6 (P=3) exceed the state table of Engine P and are reported as not exhausted (state_table_full in the evidence); the Engine S jobs with >= 3 threads at bound >= 2 and with bound 3 run without the conformance replay.'),
     'C04': dict(cat='model_checking', engine='mcsched', tech='stateless preemption-bounded schedule exploration of the real factorization; deadlock = no enabled thread under the controlled scheduler',
                 text='Same exploration as C03 (Engine S schedules + Engine P reachable-state search with deadlock-freedom, lost-wake-up and rank/termination checks in every model state). In every execution: the scheduler never finds all threads blocked (deadlock / lost wake-up), no execution exceeds the step horizon (livelock), each panel is handed out once, each column begun/pivoted/released once, tasks_remain equals the number of untaken panels at every scheduler return, the queue stays inside its n slots, every created thread is joined before the driver returns; includes singular inputs and more threads than columns.', ref='5 C04',
